@@ -134,7 +134,7 @@ class Executor(ExprMixin, CallMixin, LoopMixin, CompMixin, SqliteMixin, BuiltinM
 
     def st_Assign(self, s, st):
         v = self.eval(s.value, st)
-        v = self.apply_local_type(s.targets[0], v, st)
+        v = self.apply_local_type(s.targets[0], v, st, s.value)
         for tgt in s.targets:
             self.assign(tgt, v, st)
         return self.flush(st)
@@ -304,7 +304,7 @@ class Executor(ExprMixin, CallMixin, LoopMixin, CompMixin, SqliteMixin, BuiltinM
     def st_With(self, s, st):
         return self.exec_with(s, st)
 
-    def apply_local_type(self, tgt, v, st):
+    def apply_local_type(self, tgt, v, st, node=None):
         """Contract `locals` give the element type of lists that start out as an empty literal."""
         if isinstance(tgt, ast.Name) and st.frame is not None:
             c = self.contract_of(st.frame.qualname)
@@ -313,6 +313,11 @@ class Executor(ExprMixin, CallMixin, LoopMixin, CompMixin, SqliteMixin, BuiltinM
                 if v.ty.name == "List" and v.ty.args[0] is None and ty.name == "List":
                     return Val(ty, v.t)
                 if v.ty.name == "Dict" and ty.name == "Dict" and v.ty != ty:
+                    if isinstance(node, ast.Dict) and not node.keys:
+                        # `{}`: the same (just allocated) object, its empty map recorded under the declared value type
+                        vty = ty.args[0]
+                        st.write(self._map_key(vty), z3.ArraySort(S, opt_sort(sort_of(vty)).sort), v.t, self.empty_map(vty))
+                        self.log_write(self._map_key(vty))
                     return Val(ty, v.t)
         return v
 
@@ -482,9 +487,19 @@ class Executor(ExprMixin, CallMixin, LoopMixin, CompMixin, SqliteMixin, BuiltinM
         return exits
 
     def check_exit(self, fi, c, o, env):
+        if o.status in ("return", "raise"):
+            self.check_frame(c, o, env)
         if o.status == "return":
             penv = dict(env)
             penv["result"] = o.ret if not fi.is_generator else o.env["__yield__"]
+            if c.get("returns") and not fi.is_generator:
+                rty = parse_type(c["returns"])
+                rv = penv["result"]
+                if rv.ty != rty and rty.name in ("List", "Dict", "Opt") and rv.ty.name != "SDict":
+                    try:
+                        penv["result"] = from_sort_term(to_sort_term(rv, rty), rty)
+                    except Unsupported:
+                        pass
             for gname in list(c.get("ghost_vars", {})) + list(c.get("ghost_returns", {})):
                 if gname in o.env:
                     penv[gname] = o.env[gname]
